@@ -346,6 +346,9 @@ class RecordingThreads:
         errs = []
         ths, self.threads[:] = list(self.threads), []
         for t in ths:
+            t0 = time.time()
+            while t.ident is None and time.time() - t0 < timeout:   # created by another thread, not started yet
+                time.sleep(0.0005)
             t.join(timeout)
             if t.is_alive():
                 raise RuntimeError("sender thread still running after the bound")
